@@ -248,10 +248,11 @@ def sysDevs (disks : List SysDisk) : List Dev := disks.flatMap SysDisk.devs
 /-- sysfs presents a device under its directory name (`/` → `!`) -/
 def sysfsNamed (devs : List Dev) : List Dev := devs.map fun d => { d with name := sysName d.name }
 
-/-- what the user is promised when the counters come from `/sys/block`: as from
-    `/proc/diskstats`, every device under the name sysfs lists it with -/
+/-- what the user is promised when the counters come from `/sys/block`: exactly what
+    `/proc/diskstats` would have given for the same kernel state — every device under the name the
+    kernel gives it (`cciss/c0d0`, not the directory name `cciss!c0d0`) -/
 def expectSysfs (perdisk : Bool) (disks : List SysDisk) : Expect :=
-  expectDisk perdisk (sysfsNamed (sysDevs disks))
+  expectDisk perdisk (sysDevs disks)
 
 /-! ### disk_usage -/
 
